@@ -282,9 +282,9 @@ where
         let mut filtered_kmers = Vec::new();
         let mut removed = 0;
 
-        if filter_ambig_as_missing {
-            self.update_counts(true);
-        }
+        // Stored counts may have been calculated with the other setting of
+        // `filter_ambig_as_missing` by an earlier filter, so always recount
+        self.update_counts(filter_ambig_as_missing);
 
         for count_it in self
             .variant_count
